@@ -443,6 +443,12 @@ func runC15(c c15Case) (msg string, labels []string, nontrivial bool) {
 	for _, m := range c.Muts {
 		lab["accepted-after-"+m] = true
 	}
+	if len(conf.Partitions) == 0 || len(conf.Partitions[0].Queues) == 0 {
+		// a document without partitions (the empty document) is accepted by the validator: nothing to judge, the predicates
+		// below are about single partition documents (listed assumption)
+		lab["accepted-without-partition"] = true
+		return "", keys(lab), false
+	}
 	depth, sparse := 0, 0
 	walkQ(&conf.Partitions[0].Queues[0], func(q *configs.QueueConfig, d int) {
 		if d > depth {
